@@ -6,42 +6,30 @@ import SC.Units
 namespace SC
 variable {F : Type} [Num F]
 
-/-- the grouping loop of `format_number`: copy the first `n` characters of `digits`, inserting
-    `sep` so that groups of three are counted from the right end of those `n` characters -/
-def groupLoop (sep : List Char) (n : Nat) : Nat → List Char → List Char
-  | _, [] => []
-  | i, c :: cs =>
-    if i ≥ n then []
-    else
-      -- trunc_dot_index after the increment = (3 - n % 3) + i + 1
-      let dot := (3 - n % 3) + i + 1
-      if n ≠ i + 1 && dot % 3 = 0 then c :: sep ++ groupLoop sep n (i + 1) cs
-      else c :: groupLoop sep n (i + 1) cs
+/-- split a digit string at its first '.' -/
+def splitDot (cs : List Char) : List Char × List Char :=
+  (cs.takeWhile (· ≠ '.'), (cs.dropWhile (· ≠ '.')).drop 1)
 
-/-- `format_number` -/
+/-- the grouping loop of `format_number`: a separator after every character that is followed by
+    a positive multiple of three characters -/
+def groupThousands (sep : List Char) : List Char → List Char
+  | [] => []
+  | c :: cs =>
+    if cs.length > 0 && cs.length % 3 = 0 then c :: sep ++ groupThousands sep cs
+    else c :: groupThousands sep cs
+
+/-- are all printed fraction digits zero? -/
+def allZero (cs : List Char) : Bool := cs.all (· = '0')
+
+/-- `format_number` (one digit string — fix in /repo): sign, grouped integer digits, and the
+    fraction unless it is empty or (removal enabled and all of its digits are zero) -/
 def formatNumber (x : F) (thou dec : String) (digits : Nat) (removeZero rounding : Bool) : String :=
-  let divider : F := Num.ofRat false (10 ^ digits) 1
-  let fractNumber : F := gdiv (Num.round (Num.mul x divider)) divider
-  let tr : F := Num.trunc fractNumber
-  let truncPart : List Char := (Num.short (Num.abs tr)).toList
   let formatted : List Char := (if rounding then Num.fixed (Num.abs x) digits else Num.short (Num.abs x)).toList
-  let fractPos : Bool := !(Num.beq tr fractNumber)       -- fract_information(fract) > 0
-  let n := truncPart.length
+  let parts := splitDot formatted
   let sign : List Char := if Num.lt x (Num.ofInt 0) then ['-'] else []
-  let intPart := groupLoop thou.toList n 0 formatted
   let frac : List Char :=
-    if (fractPos || !removeZero) && n ≠ formatted.length then dec.toList ++ formatted.drop (n + 1) else []
-  String.ofList (sign ++ intPart ++ frac)
-
-def radixDigit (d : Nat) : Char := if d < 10 then Char.ofNat (48 + d) else Char.ofNat (55 + d)
-
-def natToRadix (radix : Nat) : Nat → Nat → List Char
-  | 0, _ => []
-  | fuel + 1, n => if n = 0 then [] else natToRadix radix fuel (n / radix) ++ [radixDigit (n % radix)]
-
-/-- digits of `n` in base `radix` (at least one digit) -/
-def radixDigits (radix n : Nat) : List Char :=
-  if n = 0 then ['0'] else natToRadix radix (n + 1) n
+    if !parts.2.isEmpty && !(removeZero && allZero parts.2) then dec.toList ++ parts.2 else []
+  String.ofList (sign ++ groupThousands thou.toList parts.1 ++ frac)
 
 /-- `as i32` of an integer value (saturating) then two's complement 32-bit pattern -/
 def i32Pattern (v : Int) : Nat :=
